@@ -492,7 +492,9 @@ func checkC13(r *Result) {
 			{Name: "paid", Event: P.CallEvent(func(c *CallSite) bool { return c.Callee == "(x/dispute/keeper.Keeper).PayDisputeFee" }, T)},
 			{Name: "recorded", Event: P.CallEvent(descIs("coll:x/dispute/keeper.Keeper.DisputeFeePayer.Set"), T)},
 			{Name: "disputeStored", Event: P.CallEvent(descIs("coll:x/dispute/keeper.Keeper.Disputes.Set"), T)},
-		}, func(v map[string]bool) bool { return (!v["recorded"] || v["paid"]) && (!v["paid"] || v["disputeStored"]) })
+		}, func(v map[string]bool) bool {
+			return (!v["recorded"] || v["paid"]) && (!v["paid"] || v["disputeStored"])
+		})
 	}
 	// fees are taken in the bond denom only (everything is paid back and burned in it)
 	{
